@@ -16,12 +16,23 @@ Class(line, bad) ==
            /\ c.entry \in {"file_rel", "file_rel_default", "data", "reader", "uri_remote"}      \* (it shows only when the root's own location is relative, absent or remote; under an
         THEN "default_name_collision"                                                            \*  absolute file path the two files get different names, and must)
    (* F-C16-2: references inside a callback that lives in an external file are not rewritten      *)
-   ELSE IF c.kind = "callbacks" /\ c.shape \in {"childlocal", "childlocal_shadow", "childpair_local", "localalias_childlocal", "selfcycle", "mutualcycle"}     \* (a cycle through a callback is such a local reference)
+   ELSE IF c.kind = "callbacks" /\ c.shape \in {"childlocal", "childlocal_shadow", "childpair_local", "localalias_childlocal", "samelocal_twofiles", "selfcycle", "mutualcycle"}     \* (a cycle through a callback is such a local reference)
            /\ bad \subseteq {"reloads_without_external_refs", "resolves_to_same_content"}
         THEN "callback_inner_refs_not_internalised"
    (* F-C16-3: a root component that is a whole-file reference to a header / response              *)
    \*         (any shape whose root reference is of the whole-file form: wholefile, and the whole-file elements with local definitions)
-   ELSE IF c.shape \in {"wholefile", "wholedef", "wholedef_ref", "wholedef_reffrag"} /\ c.u.use.ref.frag = <<>> /\ c.pos = "comp" /\ c.kind \in {"headers", "responses"}
+   (* F-C16-9: the loader gives a whole-file reference to an EXAMPLE, a LINK or a SECURITY SCHEME the location of the REFERRING document as      *)
+   (*          its RefPath (loader.go resolve{Example,Link,SecurityScheme}Ref drop the location loadSingleElementFromURI returns; the other seven *)
+   (*          resolvers keep it).  InternalizeRefs derives the component name from RefPath: for a document loaded from memory RefPath is nil    *)
+   (*          and DefaultRefNameResolver panics; from a file the name is that of the referring document and the reference ends up elsewhere.    *)
+   ELSE IF c.shape \in {"wholefile_plain", "rootchild_whole", "pctname_whole"}
+           /\ (IF c.shape = "rootchild_whole" THEN c.u.slots[1].c.ch[1].kind ELSE c.kind) \in {"examples", "links", "securitySchemes"}
+           /\ (\/ (bad = {"no_panic"} /\ c.entry \in {"data", "reader"})
+               \/ ((c.shape = "rootchild_whole" \/ c.pos # "comp") /\ bad \subseteq {"validates_iff_original", "resolves_to_same_content", "reloads_without_external_refs"}))
+        THEN "wholefile_refpath_of_referring_document"
+   \*         (F-C16-3, next: wholefile_plain brought whole-file root components of the kinds without child sites: links, examples, security schemes)
+   ELSE IF c.shape \in {"wholefile", "wholefile_plain", "wholedef", "wholedef_ref", "wholedef_reffrag"} /\ c.u.use.ref.frag = <<>> /\ c.pos = "comp"
+           /\ c.kind \in {"headers", "responses", "links", "examples", "securitySchemes"}
            /\ bad \subseteq {"validates_iff_original", "resolves_to_same_content", "reloads_without_external_refs"}
         THEN "wholefile_component_self_reference"
    (* F-C16-6 (= F-C02-5 seen from here; repaired, f4a43a7): a local pointer BELOW a header component loads from a file only through the loader's raw   *)
